@@ -291,7 +291,17 @@ def _check_make(cx, make, elem, sh):
     for st, v in assignments(make, S):
         blocks.setdefault(id(_block_of(st)[2]), {"P": [], "S": []})["S"].append((st, v))
     n_pairs = 0
-    if any(len(b["P"]) != 1 or len(b["S"]) != 1 for b in blocks.values()):
+    def _enc(v, name):
+        return isinstance(v, ast.Call) and isinstance(v.func, ast.Attribute) and is_name(v.func.value, name) and v.func.attr == "encode" and not v.args
+
+    def _enc_block(b):
+        return all(_enc(v, P) for _s, v in b["P"]) and all(_enc(v, S) for _s, v in b["S"]) and (b["P"] or b["S"])
+    if any((len(b["P"]) != 1 or len(b["S"]) != 1) and not _enc_block(b) for b in blocks.values()):
+        # the bytes variant is still judged where it stands: both or none
+        for b in blocks.values():
+            if _enc_block(b):
+                okb = len(b["P"]) == 1 and len(b["S"]) == 1
+                cx.ob("R09b", (b["P"] or b["S"])[0][0], okb, "bytes variant encodes both prefix and suffix" if okb else "bytes variant encodes only one of prefix/suffix", semantic=True)
         # prefix and suffix are not set side by side: decided by a small abstract run of make() instead - the code list as
         # empty / non-empty, prefix and suffix as empty / non-empty strings; at the return both must be empty or both not
         verdict = _pairing_by_abstract_run(make, P, S, codes)
